@@ -245,4 +245,64 @@ example : (evalForEach ex1 (fun (lg : List Int) a => (lg ++ [a], if a = 40 then 
     .ok ([1, 2, 40], some "boom") := by
   rw [forEach_stops_at_first_error]; rfl
 
+/-! ### algebraic laws of the combinators, as observed through the documented consumption loop
+(corollaries of `eval_eq_denote`: two expressions are interchangeable for every consumer) -/
+
+/-- `Map` fuses: mapping twice is mapping the composition -/
+theorem map_map_fuses {α β γ : Type} (e : Expr α) (f : α → β) (g : β → γ) :
+    eval (.map (.map e f) g) = eval (.map e (g ∘ f)) := by
+  simp [eval_eq_denote, denote, List.map_map]
+
+/-- `Filter` fuses: filtering twice is filtering by the conjunction -/
+theorem filter_filter_fuses {α : Type} (e : Expr α) (p q : α → Bool) :
+    eval (.filter (.filter e p) q) = eval (.filter e (fun a => p a && q a)) := by
+  simp [eval_eq_denote, denote, List.filter_filter, Bool.and_comm]
+
+/-- `Plus` is associative and distributes under `Map`, `Filter` and `Join` -/
+theorem plus_assoc {α : Type} (a b c : Expr α) :
+    eval (.plus (.plus a b) c) = eval (.plus a (.plus b c)) := by
+  simp [eval_eq_denote, denote, List.append_assoc]
+
+theorem map_plus {α β : Type} (a b : Expr α) (f : α → β) :
+    eval (.map (.plus a b) f) = eval (.plus (.map a f) (.map b f)) := by
+  simp [eval_eq_denote, denote]
+
+theorem filter_plus {α : Type} (a b : Expr α) (p : α → Bool) :
+    eval (.filter (.plus a b) p) = eval (.plus (.filter a p) (.filter b p)) := by
+  simp [eval_eq_denote, denote]
+
+theorem join_plus {α β : Type} (a b : Expr α) (k : α → Expr β) :
+    eval (.join (.plus a b) k) = eval (.plus (.join a k) (.join b k)) := by
+  simp [eval_eq_denote, denote]
+
+/-- the monad laws of `From` / `Join` -/
+theorem join_from_left {α β : Type} (v : α) (k : α → Expr β) :
+    eval (.join (.from v) k) = eval (k v) := by
+  simp [eval_eq_denote, denote]
+
+theorem join_from_right {α : Type} (e : Expr α) :
+    eval (.join e (fun a => .from a)) = eval e := by
+  simp [eval_eq_denote, denote]
+
+theorem join_assoc {α β γ : Type} (e : Expr α) (k : α → Expr β) (h : β → Expr γ) :
+    eval (.join (.join e k) h) = eval (.join e (fun a => .join (k a) h)) := by
+  simp [eval_eq_denote, denote, List.flatMap_assoc]
+
+/-- `Map` is `Join` with `From` -/
+theorem map_as_join {α β : Type} (e : Expr α) (f : α → β) :
+    eval (.map e f) = eval (.join e (fun a => .from (f a))) := by
+  simp [eval_eq_denote, denote, List.map_eq_flatMap]
+
+/-- `TakeWhile` followed by `DropWhile` of the same predicate gives back every element, in order -/
+theorem takeWhile_plus_dropWhile {α : Type} (e : Expr α) (p : α → Bool) :
+    eval (.plus (.takeWhile e p) (.dropWhile e p)) = eval e := by
+  simp [eval_eq_denote, denote, List.takeWhile_append_dropWhile]
+
+/-- `Filter` never lengthens, `TakeWhile` yields a prefix, `DropWhile` a suffix of what the operand yields -/
+theorem shrinking_combinators {α : Type} (e : Expr α) (p : α → Bool) :
+    ∃ l lf lt ld, eval e = .ok l ∧ eval (.filter e p) = .ok lf ∧ eval (.takeWhile e p) = .ok lt ∧
+      eval (.dropWhile e p) = .ok ld ∧ lf.Sublist l ∧ lt <+: l ∧ ld <:+ l :=
+  ⟨_, _, _, _, eval_eq_denote e, eval_eq_denote _, eval_eq_denote _, eval_eq_denote _,
+    List.filter_sublist, List.takeWhile_prefix p, List.dropWhile_suffix p⟩
+
 end Golem.Props.C14
